@@ -68,7 +68,8 @@ class C11(Check):
                 "Pox.C11.hop_provenance", "Pox.C11.net_no_echo_no_dup", "Pox.C11.net_unknown_floods", "Pox.C11.net_known_dst",
                 "Pox.C11.net_known_dst_fresh_partial", "Pox.C11.net_filtered", "Pox.C11.net_buffers_drain", "Pox.C11.net_cache_bounded",
                 "Pox.C11.netInit_inv", "Pox.C11.arrive_current", "Pox.C11.current_reachable", "Pox.C11.known_dst_fresh_repaired",
-                "Pox.C11.ideal_repaired", "Pox.C11.net_known_dst_fresh_repaired", "Pox.L2.sweep_bounds",
+                "Pox.C11.ideal_repaired", "Pox.C11.net_known_dst_fresh_repaired", "Pox.L2.sweep_bounds", "Pox.L2.sweep_keeps", "Pox.L2.mem_sweep_iff",
+                "Pox.C11.propagate_complete", "Pox.C11.net_complete",
                 "Pox.C11.known_dst_fresh_defect"]
     # name-based anchors, resolved on the current source at every run (the data setter is added in setup(): two defs are called `data`)
     anchors = [("pox/forwarding/l2_learning.py", "LearningSwitch._handle_PacketIn"), ("pox/openflow/libopenflow_01.py", "ofp_flow_mod.pack")]
@@ -81,13 +82,18 @@ class C11(Check):
                   "deliveries of one arrival are distinct existing ports other than the ingress and carry the arriving frame (no_echo_no_dup); multicast/broadcast or "
                   "never-seen destinations that are not filtered go to exactly all other ports (unknown_floods); all buffer slots are free at quiescence "
                   "(buffers_drain, buffers_drain_history); a seen unicast destination is delivered only where it was seen (known_dst); bridge-filtered/LLDP frames "
-                  "are not forwarded (filtered); with no matching flow AND a current controller table the delivery is exactly the most recent port "
+                  "are not forwarded (filtered — its hypothesis `Filtered` includes transparent = false: a component started with --transparent forwards them "
+                  "like any other frame, as the code intends); with no matching flow AND a current controller table the delivery is exactly the most recent port "
                   "(known_dst_fresh_partial). The property's 'exactly the most recent port' clause FAILS on the code as it stands when the destination's latest "
                   "frames were absorbed by a cached flow on another port (known_dst_fresh_defect, decide-checked witness replayed on the real system; "
                   "stale_only_by_cached_hit / miss_refreshes characterise exactly when the controller table is stale). Networks: every_hop / net_* state "
                   "the same clauses for every hop of every frame of every history in any network of switches joined by links (per-switch learning state, "
                   "one clock), hop_provenance says frames only travel along links, net_buffers_drain that no switch ever holds a buffer at quiescence, "
-                  "net_cache_bounded / sweep_bounds that after a sweep no entry is older than 30 s or idle for more than 10 s. The model is parametric in "
+                  "net_cache_bounded / sweep_bounds that after a sweep no entry is older than 30 s or idle for more than 10 s, sweep_keeps / mem_sweep_iff "
+                  "that a sweep removes nothing else. The net_* theorems hold for any hop budget; propagate_complete / net_complete add that when the "
+                  "budget sufficed (`netOk`, the driver refuses to answer otherwise) every frame put on a link has its hop in the log, so nothing is "
+                  "silently truncated. NOT proved: network-wide absence of duplicates in loop-free topologies (net_no_dup_full is kept as a named, "
+                  "unproved statement; 'no frame delivered twice' is proved per switch, and the oracle checks the network-wide form on every case). The model is parametric in "
                   "whether the tree carries repair C11-K1 (read from l2_learning.py on every run): for the repaired component current_reachable shows "
                   "macToPort d = most recent port of d in every reachable state and known_dst_fresh_repaired / ideal_repaired / "
                   "net_known_dst_fresh_repaired give the clause at full strength.")
@@ -99,6 +105,7 @@ class C11(Check):
                     "Python ideal-bridge oracle (harness/c11.py oracle_ex) written independently of the model"]
     assumptions = ["control channel processed to quiescence between data-plane arrivals (single-threaded cooperative POX; the harness pumps the byte pipes)",
                    "flood hold-down _flood_delay = 0 (the module default); ports up, no NO_FLOOD/NO_FWD port config; flow table not full",
+                   "network-wide no-duplicates (no switch port sees one frame twice when the links form a forest) is checked by the oracle, not proved",
                    "network theorems are per hop; that a frame reaches its destination host across a loop-free topology (end-to-end delivery) is not stated",
                    "frames are untagged Ethernet II whose ofp_match.from_packet is determined by (src,dst,ethertype,key); port numbers < OFPP_MAX"]
     rule = ("case = (transparent?, 1..3 switches with 2..5 ports and pools of 0..4 buffers, loop-free links, history of host frames (UDP/ARP/LLDP/raw; unicast, "
@@ -484,6 +491,9 @@ class C11(Check):
             if op["op"] != "rx": continue
             src, dst, et = op["src"], op["dst"], etype_of(op["kind"])
             hdr = (src, dst, op["kind"], op["key"])
+            hops = [(a["sw"], a["port"]) for a in st["arr"]]
+            if len(set(hops)) != len(hops):                    # the harness builds loop-free topologies only
+                return "one frame reached the same switch port twice: %s" % sorted(h for h in set(hops) if hops.count(h) > 1), "net-dup"
             for a in st["arr"]:
                 si, port = a["sw"], a["port"]
                 nports = case["switches"][si]["ports"]
